@@ -6,6 +6,10 @@
     c06.verify  scriptSig scriptPubKey flags tx inIdx   Model.verifyScript ~ Ref.verifyScript
                    → `<model> ~ <ref>` with  `ok` | `err:<family>`
     (`<ref>` is `-` outside the reference's domain: negative inIdx or CLEANSTACK without P2SH)
+    c06.seq     (kind a0 a1 flags tx inIdx txref)*   a history of calls in one process: kind `e` = eval
+                   (a0 = script, a1 = stack), kind `v` = verify (a0 = scriptSig, a1 = scriptPubKey); `txref`
+                   says how the harness obtains txTo (the model is a pure function and ignores it)
+                   → the step replies joined by ` ;; `
     c06.num     int                           Model.bn2vch ~ Ref.scriptNumSer          (hex ~ hex)
     c06.dec     hex                           Model.vch2bn ~ Ref.scriptNumDecode       (int ~ int)
 
@@ -132,8 +136,35 @@ def verifyBoth (sig spk : Bytes) (fl : Flags) (tx : Tx) (inIdx : Int) : String :
     if Ref.verifyScript (concreteEnv tx inIdx) fl sig spk then "ok" else "err:validation"
   m ++ " ~ " ++ r
 
+def stepReply (kind a0 a1 fl tx idx : String) : String :=
+  match parseHex? a0, parseFlags? fl, TxFmt.parseTx? tx, parseInt? idx with
+  | some a0, some fl, some tx, some idx =>
+      if !txOk tx then badArgs
+      else if kind == "e" then
+        (match parseStack? a1 with
+         | some st => evalBoth a0 st fl tx idx
+         | none => badArgs)
+      else if kind == "v" then
+        (match parseHex? a1 with
+         | some spk => verifyBoth a0 spk fl tx idx
+         | none => badArgs)
+      else badArgs
+  | _, _, _, _ => badArgs
+
+/-- replies of a history: groups of 7 fields -/
+def seqReplies : List String → Option (List String)
+  | [] => some []
+  | kind :: a0 :: a1 :: fl :: tx :: idx :: _txref :: rest => do
+      let rs ← seqReplies rest
+      pure (stepReply kind a0 a1 fl tx idx :: rs)
+  | _ => none
+
 def handle (op : String) (args : List String) : Option String :=
   match op, args with
+  | "c06.seq", steps => some <|
+      match seqReplies steps with
+      | some rs => if rs.any (· == badArgs) then badArgs else " ;; ".intercalate rs
+      | none => badArgs
   | "c06.eval", [sc, st, fl, tx, idx] => some <|
       match parseHex? sc, parseStack? st, parseFlags? fl, TxFmt.parseTx? tx, parseInt? idx with
       | some sc, some st, some fl, some tx, some idx =>
